@@ -302,6 +302,8 @@ fn scenarios(tier: &str) -> Vec<(String, ScenMaker)> {
             }),
         ));
     }
+    // cheap scenarios first: the deep three-file searches then use whatever is left of the wall-clock budget
+    out.sort_by_key(|(n, _)| n.starts_with("three-files"));
     out
 }
 
